@@ -170,6 +170,11 @@ def handle (op : String) (args : List String) : Option String :=
       let (prev, failAt) ← run (do let p ← list nat; let f ← int; pure (p, f)) args
       let db := Checkpoint.sqlRun ⟨prev, none⟩ (Checkpoint.sqlSaveStmts 999) (if failAt < 0 then none else some failAt.toNat)
       pure (showNats db.committed)
+  | "ckpt.sqlseq" => do
+      -- prev rows | statement codes as observed on the real save | failAt (-1: none)
+      let (prev, codes, failAt) ← run (do let p ← list nat; let c ← list nat; let f ← int; pure (p, c, f)) args
+      let db := Checkpoint.sqlRun ⟨prev, none⟩ (Checkpoint.sqlOfCodes 999 codes) (if failAt < 0 then none else some failAt.toNat)
+      pure (showNats db.committed)
   | "ckpt.journal" => do
       let (j, n, k, rb) ← run (do let j ← nat; let n ← nat; let k ← nat; let rb ← bool; pure (j, n, k, rb)) args
       pure (match Checkpoint.Journal.load j n rb (Checkpoint.Journal.crashAt j n k) with
